@@ -465,3 +465,15 @@ Proof.
   destruct (Nat.eq_dec i j) as [He|He]; [|lia].
   exfalso. destruct (Hc He) as [_ Hba]. apply (Hac a). exists b. split; auto.
 Qed.
+
+(* witness: one component reading the exogenous variable 0 and its own output 1 *)
+Lemma self_feedback_is_a_single_call :
+  exists (cs : list cio) (g : list nat) (a : nat),
+    In g (system_sccs cs) /\ In a g /\ is_loop g = false /\ path1 (edges cs) a a.
+Proof.
+  exists [([0; 1], [1])], [0], 0.
+  split; [vm_compute; left; reflexivity|].
+  split; [left; reflexivity|].
+  split; [reflexivity|].
+  exists 0. split; [vm_compute; left; reflexivity | apply path_refl].
+Qed.
